@@ -193,6 +193,18 @@ func runC18(c *Ctx) {
 			case !strings.Contains(rc.v, "net/url.QueryUnescape("):
 				decBad = append(decBad, "a URL parameter value reaches the rule functions without query percent-decoding: "+shorten(rc.v, 300))
 			}
+			// the value judged is the parameter's text as cut out of the (decoded) query: anything else applied
+			// to it on the way (TrimSpace, ToLower, Replace, …) makes the URL carrier measure a different
+			// string than struct, Var and map do for the same value
+			for _, m := range regexp.MustCompile(`([A-Za-z_][A-Za-z0-9_/\.]*)\(`).FindAllStringSubmatch(rc.v, -1) {
+				switch m[1] {
+				case "reflect.ValueOf", "net/url.QueryUnescape", "net/url.PathUnescape", "strings.Split", "strings.SplitN", "strings.Index", "strings.IndexByte", "strings.Cut", "len", "valid.cutByte", "valid.cutStr":
+				default:
+					if strings.HasPrefix(m[1], "strings.") || strings.HasPrefix(m[1], "bytes.") || strings.HasPrefix(m[1], "unicode") || strings.HasPrefix(m[1], "html.") || strings.HasPrefix(m[1], "strconv.") {
+						decBad = append(decBad, "a URL parameter value is passed through "+m[1]+" before it is judged: the URL carrier measures a different string than struct, Var and map do for the same value")
+					}
+				}
+			}
 		}
 		// each parameter is judged by its own text: neither the key nor the value handed on may be
 		// carried over from the previous parameter (a loop-carried variable that is not reset)
